@@ -417,6 +417,27 @@ def run_config_cells(impl, out):
                                                      w.transport(sid), before, len(w.table_sids())), case)
                     finally:
                         w.teardown()
+    # a server that allows the upgrade: the handshake completes whatever the spelling of the two upgrade headers
+    for up, conn in (('websocket', 'keep-alive, Upgrade'), ('WebSocket', 'Upgrade, keep-alive'), ('websocket', 'upgrade')):
+        w = peer.make_world(impl)
+        try:
+            sid = peer.sid_of(peer.open_polling(w))
+            w.call('send', sid, 'queued')
+            w.run()
+            s = w.ws('EIO=4&transport=websocket&sid=' + sid, headers={'Upgrade': up, 'Connection': conn})
+            w.run()
+            for f in ('2probe', '5'):
+                if s.accepted and not s.server_closed:
+                    w.ws_send(s, f)
+                    w.run()
+            n += 1
+            case = {'cfg': 'default_headers', 'events': ['2probe', '5'], 'upgrade': up, 'connection': conn}
+            fr = peer.ws_frames(s)
+            if w.transport(sid) != 'websocket' or '3probe' not in fr or '4queued' not in fr:
+                V(out, impl, 'correct_handshake_not_upgraded', 'header_spelling',
+                  'upgrade request with Upgrade: %s, Connection: %s and a correct handshake: frames %r, transport() = %r' % (up, conn, fr, w.transport(sid)), case)
+        finally:
+            w.teardown()
     # websocket-only server
     w = peer.make_world(impl, server_kwargs=dict(transports=['websocket']))
     try:
